@@ -107,7 +107,7 @@ def extend(g, api):
 
     def ms_threshold():
         b = body(STATE, 'queue_max_stream_id')
-        e = one(r'if\s+(diff\s*[<>=]+\s*self\.max_concurrent_remote_count\[dir as usize\]\s*/\s*\d+)\s*\{', b, 'queue_max_stream_id threshold')
+        e = one(r'if\s+((?:diff\s*>\s*0\s*&&\s*)?diff\s*[<>=]+\s*self\.max_concurrent_remote_count\[dir as usize\]\s*/\s*\d+)\s*\{', b, 'queue_max_stream_id threshold')
         if not re.search(r'let\s+diff\s*=\s*self\.max_remote\[dir as usize\]\s*-\s*self\.sent_max_remote\[dir as usize\]\s*;', b):
             raise TE('queue_max_stream_id: diff expression changed')
         return tr_expr(e.replace('self.max_concurrent_remote_count[dir as usize]', 'maxConcurrent'), {'diff': 'diff', 'maxConcurrent': 'maxConcurrent'})
@@ -289,3 +289,40 @@ def extend(g, api):
             return 'true'
         raise TE('write_source: closed-half test not recognised')
     g.term('writeClosedFirst', 'Bool', f'{MOD}::SendStream::write_source closed-half test', write_closed_first)
+
+    # ---- retransmit_all_for_0rtt: is the FIN of a finished stream queued again
+    def rtx0_requeues_fin():
+        b = body(STATE, 'retransmit_all_for_0rtt')
+        old = re.findall(r'if\s+stream\.pending\.is_fully_acked\(\)\s*&&\s*!\s*stream\.fin_pending\s*\{', b)
+        new = re.findall(r'if\s+stream\.pending\.is_fully_acked\(\)\s*&&\s*!\s*stream\.fin_pending\s*&&\s*!\s*finished\s*\{', b)
+        push = [m.start() for m in re.finditer(r'if\s*!\s*stream\.is_pending\(\)\s*\{\s*self\.pending\.push_pending\(', b)]
+        rtx = [m.start() for m in re.finditer(r'stream\.pending\.retransmit_all_for_0rtt\(\)\s*;', b)]
+        if len(push) != 1 or len(rtx) != 1 or not push[0] < rtx[0]:
+            raise TE('retransmit_all_for_0rtt: push_pending / retransmit_all_for_0rtt not found in order')
+        if len(old) == 1 and len(new) == 0 and 'finished' not in b and len(re.findall(r'fin_pending\s*[|]?=', b)) == 0:
+            return 'false'
+        fin = [m.start() for m in re.finditer(r'let\s+finished\s*=\s*matches!\(\s*stream\.state\s*,\s*SendState::DataSent\s*\{\s*finish_acked\s*:\s*false\s*\}\s*\)\s*;', b)]
+        setf = [m.start() for m in re.finditer(r'stream\.fin_pending\s*\|=\s*finished\s*;', b)]
+        if len(new) == 1 and len(old) == 0 and len(fin) == 1 and len(setf) == 1 and len(re.findall(r'\bfinished\b', b)) == 3 \
+           and fin[0] < b.index('is_fully_acked') < push[0] < setf[0]:
+            return 'true'
+        raise TE('retransmit_all_for_0rtt: FIN re-queue not recognised')
+    g.term('rtx0RequeuesFin', 'Bool', f'{STATE}::retransmit_all_for_0rtt FIN of a finished stream', rtx0_requeues_fin)
+
+    # ---- Connection, Retry branch: the non-STREAM frames carried by the discarded 0-RTT packets are queued again
+    def retry_requeues_control():
+        t = strip(read('quinn-proto/src/connection/mod.rs'))
+        calls = [m.start() for m in re.finditer(r'self\.streams\.retransmit_all_for_0rtt\(\)\s*;', t)]
+        if len(calls) != 1:
+            raise TE('connection/mod.rs: expected exactly one call of streams.retransmit_all_for_0rtt()')
+        before = t[max(0, calls[0] - 700):calls[0]]
+        loop = re.search(r'let\s+zero_rtt\s*=\s*mem::take\(\s*&mut\s+self\.spaces\[SpaceId::Data\]\.sent_packets\s*\)\s*;\s*'
+                         r'for\s+info\s+in\s+zero_rtt\.into_values\(\)\s*\{\s*self\.remove_in_flight\(&info\)\s*;\s*'
+                         r'self\.spaces\[SpaceId::Data\]\.pending\s*\|=\s*info\.retransmits\s*;\s*\}\s*$', before)
+        if loop:
+            return 'true'
+        if 'info.retransmits' not in before and 'pending |=' not in before:
+            return 'false'
+        raise TE('connection/mod.rs: Retry branch before retransmit_all_for_0rtt() not recognised')
+    g.term('retryRequeuesSentControlFrames', 'Bool',
+           'quinn-proto/src/connection/mod.rs::Retry branch re-queues info.retransmits of the 0-RTT packets', retry_requeues_control)
